@@ -21,7 +21,7 @@ import numpy as np
 
 from harness import stabutil as su
 from harness import tabutil as tu
-from harness.common import Driver, Result, err_class
+from harness.common import Driver, Result, err_class, impl_guard
 
 LEVEL = "proof"
 TRUSTED_BASE = [
@@ -63,8 +63,11 @@ def impl_state_to_graph(tab):
         graph, _t2, gates = rc.state_to_graph(tab.copy())
     except Exception as e:  # noqa: BLE001
         return ("err", err_class(e), str(e)[:60])
-    gates = [tuple(int(a) if not isinstance(a, str) else a for a in g) for g in gates]
-    return ("ok", tu.bits(adj_of(graph, n)), su.circ_token(gates))
+    try:
+        gates = [tuple(int(a) if not isinstance(a, str) else a for a in g) for g in gates]
+        return ("ok", tu.bits(adj_of(graph, n)), su.circ_token(gates))
+    except Exception as e:  # noqa: BLE001 — a result that is not (graph on n vertices, tableau, list of gate tuples): an answer the model cannot match
+        return ("err", "malformed-result:" + err_class(e), str(e)[:60])
 
 
 def all_adj(n):
@@ -448,82 +451,94 @@ def run(ctx, budget=1.0):
     drv = Driver()
     rng = ctx.rng
     pending = []
-    check_density_maps(ctx, res)
-    for w in FORMER_D40:
-        check_state_to_graph(ctx, res, drv, stab_of_args(w), pending, "corpus:former-D40")
-    check_state_to_graph(ctx, res, drv, stab_of_args(D49_WITNESS), pending, "corpus:D49")
-    # regression corpus of the repaired D51 (float det*inv): |0..0> on 42 qubits in a dense generating set (fixed witness) and random ones on 48
-    z42 = bin(int(FLOAT_LIMIT_Z42, 16))[2:].zfill(42 * 42)
-    check_state_to_graph(ctx, res, drv, stab_of_args(f"n=42 x={'0' * 1764} z={z42} r={'0' * 42}"), pending, "corpus:former-D51")
-    for _ in range(1 if ctx.quick else 5):
-        check_state_to_graph(ctx, res, drv, dense_zero_state(rng, 48), pending, "corpus:former-D51")
-    flush(res, drv, pending)
+    # every stream runs under common.impl_guard: the generators (su.all_states, random_state, regauge_*, to_stabilizer, graph_stab) call graphiq
+    # outside the `try` blocks of the check functions; an exception there is reported (exit 1) instead of ending run() as exit 2
+    with impl_guard(res, "corpus", promise=True):
+        check_density_maps(ctx, res)
+        for w in FORMER_D40:
+            check_state_to_graph(ctx, res, drv, stab_of_args(w), pending, "corpus:former-D40")
+        check_state_to_graph(ctx, res, drv, stab_of_args(D49_WITNESS), pending, "corpus:D49")
+        # regression corpus of the repaired D51 (float det*inv): |0..0> on 42 qubits in a dense generating set (fixed witness) and random ones on 48
+        z42 = bin(int(FLOAT_LIMIT_Z42, 16))[2:].zfill(42 * 42)
+        check_state_to_graph(ctx, res, drv, stab_of_args(f"n=42 x={'0' * 1764} z={z42} r={'0' * 42}"), pending, "corpus:former-D51")
+        for _ in range(1 if ctx.quick else 5):
+            check_state_to_graph(ctx, res, drv, dense_zero_state(rng, 48), pending, "corpus:former-D51")
+        flush(res, drv, pending)
     nmax = 4 if ctx.quick else 5
-    for n in range(1, nmax + 1):
-        for adj in all_adj(n):
+    with impl_guard(res, "graphs", promise=True):
+        for n in range(1, nmax + 1):
+            for adj in all_adj(n):
+                check_graph(ctx, res, drv, adj, pending)
+            flush(res, drv, pending)
+        for _ in range(int((15 if ctx.quick else 200) * budget)):
+            n = rng.randrange(5, 9 if ctx.quick else 30)
+            adj = nx.to_numpy_array(nx.gnp_random_graph(n, rng.uniform(0.2, 0.8), seed=rng.getrandbits(30))).astype(int)
             check_graph(ctx, res, drv, adj, pending)
         flush(res, drv, pending)
-    for _ in range(int((15 if ctx.quick else 200) * budget)):
-        n = rng.randrange(5, 9 if ctx.quick else 30)
-        adj = nx.to_numpy_array(nx.gnp_random_graph(n, rng.uniform(0.2, 0.8), seed=rng.getrandbits(30))).astype(int)
-        check_graph(ctx, res, drv, adj, pending)
-    flush(res, drv, pending)
-    # state_to_graph on all states n<=2 (quick) / n<=3 (thorough) and random states, as Stabilizer- and CliffordTableau
-    for n in range(1, (2 if ctx.quick else 3) + 1):
-        for t in su.all_states(n):
-            for k in range(2):
-                tab = su.regauge_clifford(t, rng)
-                check_state_to_graph(ctx, res, drv, tab if k else tab.to_stabilizer(), pending, f"all-states-n{n}")
+    with impl_guard(res, "state_to_graph", promise=True):
+        # state_to_graph on all states n<=2 (quick) / n<=3 (thorough) and random states, as Stabilizer- and CliffordTableau
+        for n in range(1, (2 if ctx.quick else 3) + 1):
+            pool = su.all_states(n)
+            if len(pool) != {1: 6, 2: 60, 3: 1080}[n] or not all(tu.is_valid(t) for t in pool):
+                # enumerated with graphiq's own gate functions: a changed gate would silently shrink the "all states" stream
+                res.exact_break(f"coverage collapsed: all_states({n})", input={"n": n}, impl=f"{len(pool)} states enumerated through hadamard_gate / phase_gate / cnot_gate",
+                                model=f"{ {1: 6, 2: 60, 3: 1080}[n]} stabilizer states, all symplectic")
+            for t in pool:
+                for k in range(2):
+                    tab = su.regauge_clifford(t, rng)
+                    check_state_to_graph(ctx, res, drv, tab if k else tab.to_stabilizer(), pending, f"all-states-n{n}")
+            flush(res, drv, pending)
+        for _ in range(int((150 if ctx.quick else 2000) * budget)):
+            n = rng.randrange(3, 9)
+            tab = su.random_state(rng, n)
+            check_state_to_graph(ctx, res, drv, tab if rng.random() < 0.5 else tab.to_stabilizer(), pending, "random")
+        # gauge independence (theorem C08.state_to_graph_depends_only_on_state): another generating set of the same state gets the same graph and gates
+        for _ in range(int((40 if ctx.quick else 400) * budget)):
+            n = rng.randrange(1, 8)
+            st = su.random_state(rng, n).to_stabilizer()
+            st2 = su.regauge_stab(st, rng)
+            res.evaluations += 1
+            o1, o2 = impl_state_to_graph(st), impl_state_to_graph(st2)
+            if o1[0] == "ok" and o2[0] == "ok" and o1 != o2:
+                res.exact_break("state_to_graph:gauge-independence", input={"stab": su.stab_args(st), "regauged": su.stab_args(st2)}, impl=[list(o1), list(o2)],
+                                model="same graph and gate list for both generating sets (C08.state_to_graph_depends_only_on_state)")
+            else:
+                res.traces_validated += 1
+            check_state_to_graph(ctx, res, drv, st2, pending, "random-regauged")
+    with impl_guard(res, "state_to_graph:scale", promise=True):
+        # scale: the completeness theorem holds for every n; D51 lived beyond the sizes that used to be generated (>= 42 qubits).  Random states,
+        # dense generating sets of |0..0> (all the weight on the inverted block) and re-gauged graph states at 16..64 qubits.
+        for n in ((32,) if ctx.quick else (16, 24, 32, 40, 48, 56, 64)):
+            for _ in range(1 if ctx.quick else 3):
+                check_state_to_graph(ctx, res, drv, su.random_state(rng, n).to_stabilizer(), pending, "scale:random")
+                check_state_to_graph(ctx, res, drv, dense_zero_state(rng, n), pending, "scale:dense-zero")
+                adj = nx.to_numpy_array(nx.gnp_random_graph(n, rng.uniform(0.1, 0.6), seed=rng.getrandbits(30))).astype(int)
+                check_state_to_graph(ctx, res, drv, su.regauge_stab(graph_stab(adj), rng), pending, "scale:graph-state-regauged")
+            flush(res, drv, pending)
+        # graph states in other gauges always convert (they are the states the solvers feed in)
+        for _ in range(int((40 if ctx.quick else 400) * budget)):
+            n = rng.randrange(2, 9)
+            adj = nx.to_numpy_array(nx.gnp_random_graph(n, rng.uniform(0.2, 0.9), seed=rng.getrandbits(30))).astype(int)
+            check_state_to_graph(ctx, res, drv, su.regauge_stab(graph_stab(adj), rng), pending, "graph-state-regauged")
         flush(res, drv, pending)
-    for _ in range(int((150 if ctx.quick else 2000) * budget)):
-        n = rng.randrange(3, 9)
-        tab = su.random_state(rng, n)
-        check_state_to_graph(ctx, res, drv, tab if rng.random() < 0.5 else tab.to_stabilizer(), pending, "random")
-    # gauge independence (theorem C08.state_to_graph_depends_only_on_state): another generating set of the same state gets the same graph and gates
-    for _ in range(int((40 if ctx.quick else 400) * budget)):
-        n = rng.randrange(1, 8)
-        st = su.random_state(rng, n).to_stabilizer()
-        st2 = su.regauge_stab(st, rng)
-        res.evaluations += 1
-        o1, o2 = impl_state_to_graph(st), impl_state_to_graph(st2)
-        if o1[0] == "ok" and o2[0] == "ok" and o1 != o2:
-            res.exact_break("state_to_graph:gauge-independence", input={"stab": su.stab_args(st), "regauged": su.stab_args(st2)}, impl=[list(o1), list(o2)],
-                            model="same graph and gate list for both generating sets (C08.state_to_graph_depends_only_on_state)")
-        else:
-            res.traces_validated += 1
-        check_state_to_graph(ctx, res, drv, st2, pending, "random-regauged")
-    # scale: the completeness theorem holds for every n; D51 lived beyond the sizes that used to be generated (>= 42 qubits).  Random states,
-    # dense generating sets of |0..0> (all the weight on the inverted block) and re-gauged graph states at 16..64 qubits.
-    for n in ((32,) if ctx.quick else (16, 24, 32, 40, 48, 56, 64)):
-        for _ in range(1 if ctx.quick else 3):
-            check_state_to_graph(ctx, res, drv, su.random_state(rng, n).to_stabilizer(), pending, "scale:random")
-            check_state_to_graph(ctx, res, drv, dense_zero_state(rng, n), pending, "scale:dense-zero")
-            adj = nx.to_numpy_array(nx.gnp_random_graph(n, rng.uniform(0.1, 0.6), seed=rng.getrandbits(30))).astype(int)
-            check_state_to_graph(ctx, res, drv, su.regauge_stab(graph_stab(adj), rng), pending, "scale:graph-state-regauged")
-        flush(res, drv, pending)
-    # graph states in other gauges always convert (they are the states the solvers feed in)
-    for _ in range(int((40 if ctx.quick else 400) * budget)):
-        n = rng.randrange(2, 9)
-        adj = nx.to_numpy_array(nx.gnp_random_graph(n, rng.uniform(0.2, 0.9), seed=rng.getrandbits(30))).astype(int)
-        check_state_to_graph(ctx, res, drv, su.regauge_stab(graph_stab(adj), rng), pending, "graph-state-regauged")
-    flush(res, drv, pending)
-    # conversions: all 9 ordered pairs and chains
-    reps = ["g", "s", "dm"]
-    chains = [[a, b] for a in reps for b in reps] + [list(c) for c in itertools.product(reps, repeat=3)]
-    graphs = [a for n in (2, 3) for a in all_adj(n)] + [a for a in all_adj(4)][:: (8 if ctx.quick else 1)]
-    for adj in graphs:
-        for chain in (chains if adj.shape[0] <= 3 else rng.sample(chains, 6)):
-            check_conversions(ctx, res, adj, chain)
-    for adj in graphs:
-        if adj.shape[0] >= 2:
-            check_walk(ctx, res, adj, 6)
+    with impl_guard(res, "conversions", promise=True):
+        # conversions: all 9 ordered pairs and chains
+        reps = ["g", "s", "dm"]
+        chains = [[a, b] for a in reps for b in reps] + [list(c) for c in itertools.product(reps, repeat=3)]
+        graphs = [a for n in (2, 3) for a in all_adj(n)] + [a for a in all_adj(4)][:: (8 if ctx.quick else 1)]
+        for adj in graphs:
+            for chain in (chains if adj.shape[0] <= 3 else rng.sample(chains, 6)):
+                check_conversions(ctx, res, adj, chain)
+        for adj in graphs:
+            if adj.shape[0] >= 2:
+                check_walk(ctx, res, adj, 6)
+                check_node_order(ctx, res, adj)
+        for _ in range(int((30 if ctx.quick else 300) * budget)):
+            n = rng.randrange(3, 6)
+            adj = nx.to_numpy_array(nx.gnp_random_graph(n, rng.uniform(0.2, 0.8), seed=rng.getrandbits(30))).astype(int)
+            check_walk(ctx, res, adj, 10)
             check_node_order(ctx, res, adj)
-    for _ in range(int((30 if ctx.quick else 300) * budget)):
-        n = rng.randrange(3, 6)
-        adj = nx.to_numpy_array(nx.gnp_random_graph(n, rng.uniform(0.2, 0.8), seed=rng.getrandbits(30))).astype(int)
-        check_walk(ctx, res, adj, 10)
-        check_node_order(ctx, res, adj)
-    res.exhaustive = True
+    res.exhaustive = not res.extra.get("streams_aborted")
     res.notes.append(f"exhaustive over all graphs on <= {nmax} vertices; all 9 ordered representation pairs and all length-3 chains on all graphs n<=3")
     res.extra["driver_lines"] = drv.n_lines
     drv.close()
